@@ -217,17 +217,24 @@ PLANS = {
                        "function's own postcondition.",
     },
     "C16": {
-        "targets": ["fcp.serde:_Buffer.get_bit", "fcp.serde:_Buffer.read_word"] + [d for d in DECODERS_PROVED if d not in ("fcp.serde:_decode",)]
+        "targets": ["fcp.serde:_Buffer.get_bit", "fcp.serde:_Buffer.read_word"] + DECODERS_PROVED
                    + ["fcp.specs.type:NumericType.get_length", "fcp.specs.v2:FcpV2.get_enum", "fcp.specs.enum:Enum.get_packed_size"],
         "native": "codec",
         "trusted": [
-            "the theorem `every strict prefix of a valid encoding raises` is NOT proved as a whole: what is proved are the leaf-level clauses it "
-            "rests on (below); _decode_struct's loop step is not discharged",
+            "the sentence `every strict prefix of a valid encoding raises` is NOT proved as one theorem about two runs; what is proved, for "
+            "EVERY input, are the per-call facts it rests on (below).  Informally: a strict byte prefix of encode(v) has fewer than "
+            "len(wire(v)) bits, a normal return of decode consumed exactly the bits a value announces, all of them inside the input",
+            "known finding KF-F23: the element count of a dynamic array is bounded by the input length only when the element type occupies "
+            "at least one bit (the obligation is restricted to min_wire(element) >= 1)",
         ],
         "explanation": "get_bit raises iff the bit lies outside the buffer; read_word raises iff any of its bits does; every scalar decoder raises "
                        "iff its field extends past the input; the count prefix of strings / dynamic arrays, every announced character and the "
-                       "presence flag of optionals must lie inside the input (must_raise_if clauses); the cursor never moves backwards; the "
-                       "string loop consumes 8 bits of real input per completed iteration, so its work is bounded by the input length",
+                       "presence flag of optionals must lie inside the input (must_raise_if clauses).  For every decoder and every input: on a "
+                       "normal return the cursor has advanced by at least min_wire(type) (the shortest possible image) and lies inside the "
+                       "input (cursor <= 8*len(buffer)) - no value is ever built from bits that are not there; decode() returns only if the "
+                       "input is at least as long as the minimal image of the struct; the number of elements a dynamic array decoder "
+                       "returns is at most the number of input bits (work bounded by the input), the string loop consumes 8 bits per "
+                       "completed iteration",
     },
     "C01": {
         "targets": BUFFER + LOOKUPS + ENCODERS + BIT_LEMMAS + DECODERS_PROVED + RT_LEMMAS + ["theorems:C01_roundtrip"],
